@@ -61,7 +61,9 @@ def scenario(rng):
              "NAMES #sec,#nonexistent", "WHO #sec", "WHO *", "WHO #s*", "WHO *sec*", "WHOIS " + members[0],
              "WHOIS %s,%s" % (members[0], "p3"), "WHOIS *", "WHOIS p?", "WHOIS h*", "WHO " + members[0],
              "WHO p*", "WHO *!*@127.0.0.1", "WHO #pub1", "NAMES #pub1", "WHO #nonexistent", "LIST #nonexistent",
-             "WHOIS %s,obs" % members[0], "WHOIS obs,%s" % members[0], "NAMES #sec,#pub1,#sec", "LIST #sec,#sec"]
+             "WHOIS %s,obs" % members[0], "WHOIS obs,%s" % members[0], "NAMES #sec,#pub1,#sec", "LIST #sec,#sec",
+             # the same name in another letter case is another (non-existent) channel - in both worlds
+             "NAMES #SEC", "NAMES #Sec,#pub1", "LIST #SEC", "WHO #SEC", "NAMES #sEC", "LIST #Sec,#sec", "WHO #Sec"]
         sc["speak"] = ["PRIVMSG #sec :psst", "NOTICE #sec :psst", "PRIVMSG @#sec :psst", "PRIVMSG ~&@%+#sec :psst"]
         sc["sec_members"] = members
     else:
